@@ -2,6 +2,7 @@
 C07 — enum-level format: wraps via `_variant`, otherwise is only a default.
 -/
 import Dm.Model.FmtExpand
+import Dm.Gen.FmtTables
 
 namespace Dm.Props.C07
 open Dm.Fmt Dm.FmtX
@@ -134,6 +135,35 @@ theorem default_placeholder_is_the_derived_trait (tr : Trait) :
         (defaultPlaceholder tr)
       = [{ arg := .pos 0, mods := false, trait := tr }] := by
   cases tr <;> decide
+
+/-! #### The same about the table read from the source on this run
+
+`Dm.Gen.defaultPlaceholderTable` is `trait_name_to_default_placeholder_literal` of the working tree,
+arm by arm, regenerated by the translator on every run. -/
+
+def allTraits : List Trait :=
+  [.binary, .debug, .display, .lowerExp, .lowerHex, .octal, .pointer, .upperExp, .upperHex]
+
+/-- The source's table is the model's function, on all nine traits (and nothing was left unread). -/
+theorem source_default_placeholders_are_the_model :
+    Dm.Gen.defaultPlaceholderTable = allTraits.map (fun tr => (tr, defaultPlaceholder tr))
+    ∧ Dm.Gen.defaultPlaceholderTableUnread = 0 := by
+  decide +kernel
+
+/-- Every literal of the source's table, read by the literal parser, is one modifier-free
+placeholder for the first argument **under the trait of its own row**. -/
+theorem source_default_placeholders_denote_their_trait :
+    Dm.Gen.defaultPlaceholderTable.all (fun (tr, lit) =>
+      parseFmtString { isStart := fun c => c.isAlpha, isCont := fun c => c.isAlphanum || c == '_', isWs := fun c => c == ' ' } lit
+        == [{ arg := .pos 0, mods := false, trait := tr }]) = true := by
+  decide +kernel
+
+/-- The helper-attribute names of the nine formatting derives are pairwise distinct (an attribute
+is never read by two derives), and all nine rows were read. -/
+theorem source_attribute_names_distinct :
+    (Dm.Gen.attributeNameTable.map (·.2)).Nodup ∧ Dm.Gen.attributeNameTable.map (·.1) = allTraits
+    ∧ Dm.Gen.attributeNameTableUnread = 0 := by
+  decide +kernel
 
 /-- A `_variant` placeholder with any format specifier or a non-`Display` trait is rejected. -/
 theorem variant_spec_rejected (c : Ctx) (attrs : List CAttr) (cont : Container) (vs : List VariantD)
